@@ -7,6 +7,9 @@ from vlib import Result, log
 THEOREMS = ["C11_btree_perm", "C11_btree_sorted", "C11_marking_order_irrelevant", "C11_nonvacuous"]
 TARGETS = ["Props/C11.v"]
 MODES = ["types", "client", "client-mod", "server-mod"]
+# environments the output must not depend on
+ENVS = [{"TZ": "Asia/Tokyo"}, {"TZ": "America/New_York"}, {"TZ": "UTC", "LANG": "de_DE.UTF-8", "LC_ALL": "de_DE.UTF-8"}, {"TZ": "JST-9", "COLUMNS": "40", "NO_COLOR": "1"},
+        {"TZ": "EST5", "HOME": "/nonexistent", "USER": "someone", "TERM": "dumb"}]
 
 
 def shuffle_keys(x, rnd):
@@ -50,12 +53,21 @@ def freeform_spec():
             "conf": {"type": "object", "default": {"retries": 3, "backoff": {"max": 10, "base": 2}}, "additionalProperties": True},
             "fixed": {"const": {"z": 1, "a": 2}},
             "choice": {"enum": [{"k": 1, "j": 2}, {"b": "x", "a": "y"}, "plain"]},
-            "tags": {"type": "array", "items": {"type": "string"}, "example": ["b", "a"], "default": ["z", "y"]}}},
+            "tags": {"type": "array", "items": {"type": "string"}, "example": ["b", "a"], "default": ["z", "y"]},
+            "seen": {"type": "string", "format": "date-time", "example": "2024-03-15T09:30:00", "default": "2024-03-15T09:30:00"},
+            "seen_z": {"type": "string", "format": "date-time", "example": "2024-03-15T09:30:00Z"},
+            "day": {"type": "string", "format": "date", "example": "2024-03-15", "default": "2024-03-15"},
+            "at": {"type": "string", "format": "time", "example": "09:30:00"}}},
         "Order": {"type": "object", "properties": {
             "paging": pg({"offset": 0, "limit": 20}),
             "attrs": {"type": "object", "additionalProperties": {"type": "integer"}, "examples": [{"q": 1, "p": 2}]}}},
     }
     paths = {
+        "/multi": {"get": {"operationId": "multi_media", "responses": {
+            "200": {"description": "ok", "content": {"application/json": {"schema": {"$ref": "#/components/schemas/Product"}}, "application/xml": {"schema": {"$ref": "#/components/schemas/Order"}},
+                                                     "text/plain": {"schema": {"type": "string"}}, "application/problem+json": {"schema": {"type": "object", "properties": {"t": {"type": "string"}}}}}},
+            "4XX": {"description": "err", "content": {"application/json": {"schema": {"$ref": "#/components/schemas/Order"}}, "text/html": {"schema": {"type": "string"}},
+                                                      "application/xml": {"schema": {"$ref": "#/components/schemas/Product"}}}}}}},
         "/a/{x}/{y}/{z}": {"get": {"operationId": "three_vars", "responses": {"200": {"description": "ok", "content": {"application/json": {"schema": {"$ref": "#/components/schemas/Product"}, "example": {"z": 1, "a": 2}}}}}}},
         "/b/{one}/c/{two}/{three}/{four}": {"get": {"operationId": "four_vars", "responses": {"200": {"description": "ok", "content": {"application/json": {"schema": {"$ref": "#/components/schemas/Order"}}}}}},
                                             "delete": {"operationId": "four_vars_del", "parameters": [{"name": "f", "in": "query", "schema": {"type": "object", "additionalProperties": {"type": "string"}}, "example": {"m": "1", "l": "2"}}],
@@ -97,6 +109,7 @@ def main(tier, seed, replay=None):
                     ("sorted", json.dumps(spec, sort_keys=True), "json"), ("reversed", json.dumps(reverse_keys(spec), indent=1), "json")]
         if name in ("freeform", "replay"):
             variants += [(f"rerun{k}", json.dumps(spec), "json") for k in range(2, 7)]
+            variants += [(f"env{k}", json.dumps(spec), "json") for k in range(len(ENVS))]
         for mode in MODES:
             for vname, text, ext in variants:
                 jobs.append((name, mode, vname, text, ext))
@@ -108,7 +121,10 @@ def main(tier, seed, replay=None):
         sp = os.path.join(base, f"spec.{ext}")
         open(sp, "w").write(text)
         outp = os.path.join(base, "out" if mode.endswith("-mod") else "out.rs")
-        rc, txt = vlib.oas(["generate", mode, "-i", sp, "-o", outp, "-q"], timeout=120)
+        env = None
+        if vname.startswith("env"):
+            env = dict(vlib.ENV, **ENVS[int(vname[3:])])
+        rc, txt = vlib.oas(["generate", mode, "-i", sp, "-o", outp, "-q"], timeout=120, env=env) if env else vlib.oas(["generate", mode, "-i", sp, "-o", outp, "-q"], timeout=120)
         return rc, read_outputs(outp), txt[-300:]
     results = vlib.pmap(one, jobs)
     viol = []
@@ -119,7 +135,7 @@ def main(tier, seed, replay=None):
     for name, spec in corpus:
         for mode in MODES:
             rc0, base, t0 = by[(name, mode, "base")]
-            for v in ["rerun", "perm1", "perm2", "yaml", "sorted", "reversed"] + ([f"rerun{k}" for k in range(2, 7)] if name in ("freeform", "replay") else []):
+            for v in ["rerun", "perm1", "perm2", "yaml", "sorted", "reversed"] + ([f"rerun{k}" for k in range(2, 7)] + [f"env{k}" for k in range(len(ENVS))] if name in ("freeform", "replay") else []):
                 rc, outs, t = by[(name, mode, v)]
                 n_cmp += 1
                 if rc != rc0:
@@ -136,7 +152,7 @@ def main(tier, seed, replay=None):
                     viol.append((name, spec, f"{name} {mode}: output differs for variant {v} in {diff}: {first}"))
     res.counts.update({"evaluations": len(jobs), "distinct_nontrivial": len(corpus) * len(MODES), "comparisons": n_cmp,
                        "traces_validated_against_impl": len(jobs),
-                       "rule": "corpus = shipped fixtures + feature-grammar specs; for each spec x 4 modes: two separate processes on the same file (fresh hash seeds), two random key-order permutations at every object level (different whitespace), keys sorted, keys reverse-sorted, and a YAML re-encoding with permuted keys; a hand-made spec with free-form JSON values (example/default/const/enum/x-*) in differing key orders and paths with several undeclared template variables gets six extra reruns; outputs compared byte-for-byte with only the `//! Source:` line masked"})
+                       "rule": "corpus = shipped fixtures + feature-grammar specs; for each spec x 4 modes: two separate processes on the same file (fresh hash seeds), two random key-order permutations at every object level (different whitespace), keys sorted, keys reverse-sorted, and a YAML re-encoding with permuted keys; a hand-made spec with free-form JSON values (example/default/const/enum/x-*) in differing key orders and paths with several undeclared template variables gets six extra reruns and five runs under different TZ / locale / terminal environments; outputs compared byte-for-byte with only the `//! Source:` line masked"})
     for name, _ in corpus[:4]:
         res.sample({"spec": name, "modes": MODES, "variants": ["rerun", "perm1", "perm2", "yaml", "sorted", "reversed"]})
     res.cov["trusted_base"] = vlib.COMMON_TRUSTED + ["tools/vtool inventory (syntactic: bindings/fields/adaptors of HashMap/HashSet type that are iterated)", "python json/yaml re-serialisation of the same document"]
